@@ -28,6 +28,7 @@ will trigger as readable in `select <select.select>`.
 import sys
 import os
 import socket
+import threading
 
 
 def make_pipe():
@@ -44,31 +45,39 @@ class PosixPipe:
         self._set = False
         self._forever = False
         self._closed = False
+        # One lock for the whole pipe: it is updated from the transport
+        # thread and from application threads, which otherwise only hold
+        # unrelated locks (two different buffers' locks, the channel lock).
+        self._lock = threading.RLock()
 
     def close(self):
-        os.close(self._rfd)
-        os.close(self._wfd)
-        # used for unit tests:
-        self._closed = True
+        with self._lock:
+            os.close(self._rfd)
+            os.close(self._wfd)
+            # used for unit tests:
+            self._closed = True
 
     def fileno(self):
         return self._rfd
 
     def clear(self):
-        if not self._set or self._forever:
-            return
-        os.read(self._rfd, 1)
-        self._set = False
+        with self._lock:
+            if not self._set or self._forever:
+                return
+            os.read(self._rfd, 1)
+            self._set = False
 
     def set(self):
-        if self._set or self._closed:
-            return
-        self._set = True
-        os.write(self._wfd, b"*")
+        with self._lock:
+            if self._set or self._closed:
+                return
+            self._set = True
+            os.write(self._wfd, b"*")
 
     def set_forever(self):
-        self._forever = True
-        self.set()
+        with self._lock:
+            self._forever = True
+            self.set()
 
 
 class WindowsPipe:
@@ -91,31 +100,36 @@ class WindowsPipe:
         self._set = False
         self._forever = False
         self._closed = False
+        self._lock = threading.RLock()
 
     def close(self):
-        self._rsock.close()
-        self._wsock.close()
-        # used for unit tests:
-        self._closed = True
+        with self._lock:
+            self._rsock.close()
+            self._wsock.close()
+            # used for unit tests:
+            self._closed = True
 
     def fileno(self):
         return self._rsock.fileno()
 
     def clear(self):
-        if not self._set or self._forever:
-            return
-        self._rsock.recv(1)
-        self._set = False
+        with self._lock:
+            if not self._set or self._forever:
+                return
+            self._rsock.recv(1)
+            self._set = False
 
     def set(self):
-        if self._set or self._closed:
-            return
-        self._set = True
-        self._wsock.send(b"*")
+        with self._lock:
+            if self._set or self._closed:
+                return
+            self._set = True
+            self._wsock.send(b"*")
 
     def set_forever(self):
-        self._forever = True
-        self.set()
+        with self._lock:
+            self._forever = True
+            self.set()
 
 
 class OrPipe:
@@ -125,14 +139,18 @@ class OrPipe:
         self._pipe = pipe
 
     def set(self):
-        self._set = True
-        if not self._partner._set:
-            self._pipe.set()
+        # both halves serialise on the shared pipe's lock, so the partner's
+        # flag cannot change between looking at it and updating the pipe
+        with self._pipe._lock:
+            self._set = True
+            if not self._partner._set:
+                self._pipe.set()
 
     def clear(self):
-        self._set = False
-        if not self._partner._set:
-            self._pipe.clear()
+        with self._pipe._lock:
+            self._set = False
+            if not self._partner._set:
+                self._pipe.clear()
 
 
 def make_or_pipe(pipe):
